@@ -59,12 +59,21 @@ class _ObstructionBase(Contract):
         n1 = pp.PathNode(tmm.tm([self.p1[0], self.p1[1], self.p1[2], z, z, z]))
         n2 = pp.PathNode(tmm.tm([self.p2[0], self.p2[1], self.p2[2], z, z, z]))
         self.planner = planner
+        self.nodes = (n1, n2)
         if g.symbolic:
             self.t = T.SR.var('t_any')     # an arbitrary parameter: obligations about it hold for all t
         return (planner, n1, n2), {}
 
     def post(self, g, res, args, kwargs):
         p1, p2 = self.p1, self.p2
+        # the query must not move its operands (nodes and boxes are reused by later queries)
+        for nm, nd, pp in (('first', self.nodes[0], p1), ('second', self.nodes[1], p2)):
+            g.eq('position of the %s node is not modified by the query' % nm,
+                 S.arr([nd.getPosition()[k] for k in range(3)]), S.arr(pp))
+        for i, (Lc, Rc) in enumerate(self.boxes):
+            ob = self.planner.obstructions[i]
+            g.eq('corners of box %d are not modified by the query' % i,
+                 S.arr([ob[0][k] for k in range(3)] + [ob[1][k] for k in range(3)]), S.arr(list(Lc) + list(Rc)))
         if g.mode == 'concrete':
             # exact slab test in floats (oracle independent of the code under test)
             want = any(self._slab(p1, p2, *box_of(Lc, Rc)) for Lc, Rc in self.boxes)
